@@ -183,7 +183,7 @@ func (r *validationResponseHandler) HandleValidationResponse(
 		r.l.LogCacheMiss(req, ctx.URLKey, ctx.ToMisc(ccResp))
 	case IsUnsafeMethod(req.Method) && IsNonErrorStatus(resp.StatusCode):
 		// RFC 9111 §4.4 Invalidation of Cache Entries
-		r.ci.InvalidateCache(req.URL, resp.Header, ctx.Refs, ctx.URLKey)
+		r.ci.InvalidateCache(TargetURL(req), resp.Header, ctx.Refs, ctx.URLKey)
 		fallthrough
 	default:
 		CacheStatusBypass.ApplyTo(resp.Header)
